@@ -231,7 +231,7 @@ def r3(cx):
     fired = {}
     for c in f.calls():
         if c.q == T.Q_RUN_HOOKS_BY:
-            k = pa.root(f, c.args[1])
+            k = _lifecycle_key(f, pa, c.args[1])
             fired.setdefault(k[2] if k[0] == "agg" else "?", set()).update(values_reaching(byv, c.b))
     nonerr_term = T.TERMINAL - {"Error"}
     want = {"Created": T.CREATED, "BeforeUpdate": T.CREATED, "Completed": nonerr_term, "Updated": nonerr_term, "Step": nonerr_term, "ErrorCatch": {"Error"}}
@@ -241,7 +241,7 @@ def r3(cx):
     # Created/Completed are the hooks of the task itself; BeforeUpdate/Updated of the enclosing step and the root, for acts only
     for c in f.calls():
         if c.q == T.Q_RUN_HOOKS_BY:
-            k = pa.root(f, c.args[1])
+            k = _lifecycle_key(f, pa, c.args[1])
             key = k[2] if k[0] == "agg" else "?"
             recv = pa.root(f, c.args[0])
             if key in ("Created", "Completed", "ErrorCatch"):
@@ -251,7 +251,7 @@ def r3(cx):
     for c in f.calls():
         if c.q != T.Q_RUN_HOOKS_BY:
             continue
-        k = pa.root(f, c.args[1])
+        k = _lifecycle_key(f, pa, c.args[1])
         key = k[2] if k[0] == "agg" else "?"
         if key not in ("BeforeUpdate", "Updated"):
             continue
@@ -264,6 +264,18 @@ def r3(cx):
               "the %s hooks fired for an act are those of its nearest enclosing step, found by walking up the parents until a Step (%s)%s" % (
                   key, how, "" if ok else " - acts nested below another act (every generated act) would not reach their step"), c.loc)
     cx.floor("C16.R3", 19)
+
+
+def _lifecycle_key(f, pa, op):
+    """the TaskLifeCycle variant handed to run_hooks_by, looking through `key.clone()` (a key handed to a helper that was
+    inlined back)"""
+    k = pa.root(f, op)
+    for _ in range(4):
+        if k[0] == "call" and k[1].endswith("Clone>::clone") and not k[3]:
+            k = pa.root(f, Call(f, k[2]).args[0])
+            continue
+        break
+    return k
 
 
 def _nearest_step(m, pa, f, recv, c, depth=0):
